@@ -96,8 +96,21 @@ GatesOK(e) ==
              /\ (r.ok => r.sibOK /\ Valid(r.sibObj) /\ r.obj = r.sibObj /\ r.same)
              /\ (r.sibOK /\ Valid(r.sibObj) => r.ok)
              /\ (~r.ok => r.none)
+\* C07, JSON side: the implementation registered under the declared profile (default profile 1), an unregistered
+\* value is an error, the outcome does not depend on the register's iteration order, a token is validated under the
+\* rules of the profile it declares and an accepted one reports that profile
+DecodeJSONOK(e) ==
+  LET d == DispatchJSON(RegOf(e), e.doc) IN
+  /\ Len(e.outs) = 1                                              \* one outcome over repeated dispatch
+  /\ IF d.r # "ok" THEN ~e.dec.ok /\ ~e.val.ok /\ e.outs = <<"err">>
+     ELSE /\ (e.dec.ok => e.dec.impl = d.e.impl /\ e.dec.obj.p = d.e.p /\ e.dec.obj.canon = d.e.canon /\ ReadsOK(e.dec.obj, e))
+          /\ (e.val.ok => e.dec.ok /\ e.val.impl = d.e.impl /\ Valid(e.val.obj) /\ e.val.obj = e.dec.obj
+                              /\ ObsRet(e.get["profile"]) = RetOK(Prof(d.e.canon)))
+          /\ (e.dec.ok /\ ~Valid(e.dec.obj) => ~e.val.ok)
+          /\ (e.dec.ok /\ Valid(e.dec.obj) => e.val.ok)
 MatchT(tol, e) ==
   CASE e.op = "SignRT" -> SignRTOK(e)
+    [] e.op = "DecodeJSON" -> DecodeJSONOK(e)
     [] e.op = "Gates" -> GatesOK(e)
     [] e.op = "DecodeCBOR" -> DecodeCBOROK(IF Mode = "dispatch" THEN AllTol ELSE tol, e)
     [] e.op = "EncodeCBOR" -> EncodeCBOROK(e)
